@@ -428,10 +428,10 @@ func runParent(prop, tier string) int {
 					}
 				}
 			}
-			if hist == histTries {
+			if hist >= histTries-1 { // all runs, or all but one (state kept in a sync.Pool comes and goes with the collector)
 				repro = tries
 				v.NeedsHistory = true
-				v.Note = strings.TrimSpace(v.Note + " the case alone does not show it in a fresh process; re-running its shard up to the case does, every time (state left behind by earlier cases)")
+				v.Note = strings.TrimSpace(v.Note + " the case alone does not show it in a fresh process; re-running its shard up to the case does, in " + fmt.Sprint(hist) + " of " + fmt.Sprint(histTries) + " runs (state left behind by earlier cases)")
 				b, _ = json.MarshalIndent(v, "", " ")
 			}
 		}
